@@ -71,7 +71,7 @@ def build(U):
     U.use('core::str::Chars')
     F = 'main/src/predefined_node/mod.rs'
     U.ghost(P.CORE, 'core vocabulary')
-    U.ghost(P.input_trait_decl(['span', 'at_start', 'at_end', 'match_string', 'match_insensitive', 'skip_until', 'skip', 'match_range', 'match_char_by', 'next']), 'trait Input (contracts only)')
+    U.ghost(P.input_trait_decl(P.INPUT_BASIC + ['match_insensitive', 'skip_until', 'skip', 'match_range', 'match_char_by', 'next']), 'trait Input (contracts only)')
     U.ghost(P.TRAITS, 'trait contracts')
     U.ghost(SEM, 'denotations of terminals')
     U.ghost(UTF8, 'UTF-8 lemmas (proved; same text as in unit input)')
